@@ -16,13 +16,6 @@ BigSparse(n) ==
                !.pos = A.pos \o [i \in 1..(n - 3) |-> <<i % 40, 10 + (i \div 40), 9>>],
                !.xa = [i \in 1..n |-> <<>>],
                !.tel = A.tel \o B.tel, !.tmass = A.tmass \o B.tmass, !.tlab = A.tlab \o B.tlab, !.tpc = A.tpc \o B.tpc]
-\* a parameterised chain of n atoms (three elements in turn), bonds between neighbours (every third listed backwards, two
-\* bond types), angles on consecutive triples; instance k has its own ids and its own row of positions
-BigChain(n, k) ==
-  LET B == Base("BC", <<"C","N","O">>, [i \in 1..n |-> (i - 1) % 3], [i \in 1..n |-> <<i, 20 + 2 * k, 7>>], [i \in 1..n |-> k], TRUE)
-  IN [B EXCEPT !.q = [i \in 1..n |-> 200 * (k + 1) + i],
-               !.bond = Terms("BC", "b", [i \in 1..(n - 1) |-> IF i % 3 = 0 THEN <<i, i - 1>> ELSE <<i - 1, i>>], [i \in 1..(n - 1) |-> i % 2], 2, TRUE),
-               !.angle = Terms("BC", "n", [i \in 1..(n - 2) |-> <<i - 1, i, i + 1>>], [i \in 1..(n - 2) |-> 0], 1, TRUE)]
 ChainSizes == {10, 12, 17, 33, 40}
 Init == d \in (FragNames \X (0..MaxK)) \cup {<<"BIGSPARSE", 160>>} \cup {<<"BIGCHAIN", n>> : n \in ChainSizes} \cup {<<c, -1>> : c \in {"none", "ortho", "tri", "trineg"}}
 Next == UNCHANGED d
